@@ -46,6 +46,12 @@ func (node *tagCycleNode) Execute(ctx *ExecutionContext, writer TemplateWriter) 
 			return err
 		}
 
+		// A cycle value never holds a cycle value ({% cycle x as x %} would
+		// make it hold itself and String() would not return)
+		if inner, ok := val.Interface().(*tagCycleValue); ok {
+			val = inner.value
+		}
+
 		t.value = val
 
 		if !t.node.silent {
